@@ -155,7 +155,10 @@ func (m *maxDifferenceWatermarkGenerator) Run(ctx execution.ExecutionContext, pr
 			}
 		}
 
-		curTimeValueRoundedDown := time.Unix(0, record.Values[m.timeFieldIndex].Time.UnixNano()/int64(resolution.Duration)*int64(resolution.Duration))
+		// Round down also for times before 1970, whose nanoseconds are negative (integer division would round them up).
+		timeNanos := record.Values[m.timeFieldIndex].Time.UnixNano()
+		resolutionNanos := int64(resolution.Duration)
+		curTimeValueRoundedDown := time.Unix(0, timeNanos-((timeNanos%resolutionNanos)+resolutionNanos)%resolutionNanos)
 
 		if curTimeValueRoundedDown.After(maxValue) {
 			maxValue = curTimeValueRoundedDown
